@@ -233,6 +233,13 @@ def end_to_end(which=None, c13=False):
         pbp = _Atoms(symbols=dp.get_chemical_symbols(), positions=dp.get_positions(), pbc=False)
         pbp.center(vacuum=6.0)
         fam.insert(2, ("Pb decahedron (55 atoms)", pbp))
+        # rattled slab in a fully periodic cell with a 3.6 A gap between its images: regions from different seeds are merged, and with the
+        # custom radii the images are bonded (3D) although they are not with covalent radii (2D)
+        from ase.build import fcc111 as _f111
+        sl = _f111("Al", size=(6, 6, 4), vacuum=1.8)
+        sl.set_pbc(True)
+        sl.rattle(0.1, seed=1)
+        fam.insert(3, ("custom radii: rattled Al slab, periodic images 3.6 A apart", sl))
     for name, at in fam:
         for bt in ((0.65, 0.9) if c13 else (0.65,)):
             fails.extend(_e2e_one(name, at, bt, c13))
@@ -248,7 +255,12 @@ def _e2e_one(name, at, bt, c13):
     fails = []
     if True:
         pos0, cell0, pbc0, num0 = at.get_positions().copy(), np.array(at.get_cell()).copy(), at.get_pbc().copy(), at.get_atomic_numbers().copy()
-        for radii in (("covalent", "vdw_covalent") + (("vdw",) if name.startswith("layered") else ())):
+        presets = ("covalent", "vdw_covalent") + (("vdw",) if name.startswith("layered") else ()) + (("custom",) if name.startswith("custom radii") else ())
+        for radii in presets:
+            radii_name = radii
+            if radii == "custom":
+                # a caller's own per-atom array (1.35 x covalent)
+                radii = 1.35 * g.get_radii("covalent", num0)
             try:
                 cl = SBC().get_clusters(at, radii=radii, bond_threshold=bt)
                 cl2 = SBC().get_clusters(at, radii=radii, bond_threshold=bt)
